@@ -5,7 +5,7 @@ ENGINES = [
     {"name": "E2-sched", "path": "mc/sched.py", "serves_properties": ["C02", "C05"],
      "kind_free_text": "stateless preemption-bounded exploration of the real joblib thread-pool tasks under a baton "
                        "scheduler (sys.settrace scheduling points), one pool invocation at a time"},
-    {"name": "E1-enum", "path": "mc/core.py", "serves_properties": ["C01", "C02", "C03", "C05", "C11", "C12", "C17", "C18", "C19", "C20"],
+    {"name": "E1-enum", "path": "mc/core.py", "serves_properties": ["C01", "C02", "C03", "C05", "C11", "C12", "C13", "C14", "C17", "C18", "C19", "C20"],
      "kind_free_text": "bounded exhaustive enumeration of inputs/configurations/operation sequences on the real code "
                        "with reference-model or differential oracle; 16 forked workers"},
 ]
@@ -128,6 +128,30 @@ CHECKS.update({
              "scheduler (<=1 / <=2 preemptions) and must reproduce the sequential outcome.",
         note="Rows with exactly equal scores may swap places; PEPs across text/Parquet compared at 5e-2 (qvality "
              "amplifies last-bit score differences); third-party code atomic between scheduling points."),
+})
+
+CHECKS.update({
+    "C13": dict(
+        level="exploration", engine="E1-enum", design="DESIGN.md 4/C13",
+        technique="exhaustive enumeration of tables (0..5/8 rows) x reader kinds x chunk sizes x ordered column subsets, "
+                  "and of writer kinds x buffer sizes x buffer kinds x every composition of the rows into append "
+                  "sequences x protocol, vs a list-of-tuples reference",
+        text="Every reader kind (text, Parquet with every row-group size, in-memory, column-mapped, joined, computed) is "
+             "read chunk-wise with every chunk size and every ordered column subset and compared with whole reading and "
+             "the reference rows (values, column order, continuing index); every writer kind/buffer size/buffer kind "
+             "is driven through every append sequence and the finalised file read back.",
+        note="One fixed, clearly typed table per row count; chunk-wise CSV dtype ambiguity is outside the alphabet; the "
+             "computed reader is driven with explicit column lists only."),
+    "C14": dict(
+        level="exploration", engine="E1-enum", design="DESIGN.md 4/C14",
+        technique="exhaustive enumeration of all distributions of <=5/6 tied rows into <=4 sorted inputs x chunk sizes x "
+                  "both merge implementations x access paths x directions, vs sorted-multiset reference; negatives "
+                  "with one adjacent inversion",
+        text="utils.merge_sort (text and Parquet) and MergedTabularDataReader (read, chunked, row iterators of all three "
+             "row types; descending and ascending) are run on every split of every small score multiset: every input "
+             "row must come out exactly once, unmodified, globally sorted, independent of chunk size and of how the "
+             "rows are split; an input with an inversion must be rejected or still yield a sorted result.",
+        note="Tie order is free; reader chunk sizes run to the longest input + 1."),
 })
 
 NA = {
